@@ -8,7 +8,6 @@ import (
 	"os"
 	"sort"
 	"strings"
-	"time"
 
 	"github.com/sanonone/kektordb/pkg/core/hnsw"
 	"github.com/sanonone/kektordb/pkg/engine"
@@ -228,8 +227,7 @@ func (rp *replayer) exec(w *world, op opRec, bs *behState) error {
 		if err := e.VImportCommit(indexName); err != nil {
 			return err
 		}
-		time.Sleep(2 * time.Millisecond) // let the background refine of the tiny index pass (not relied upon)
-		return nil
+		return waitBackgroundRefine()
 	case "Delete":
 		return w.deleteAndSettle(op.Ids[0])
 	case "Vacuum":
@@ -574,8 +572,15 @@ func (rp *replayer) battery(w *world, bs *behState, st stepRec, tb table, full b
 	if dim > 0 && rp.p.Lang != "" {
 		zero := make([]float32, dim)
 		var someQ []float32
-		if len(tb.Rows) > 0 {
-			someQ = w.refine(tb.Rows[len(tb.Rows)/2].Q)
+		for _, row := range tb.Rows { // a non-zero query: a zero vector plus a text query is a text-only search
+			for _, x := range row.Q {
+				if x != 0 {
+					someQ = w.refine(row.Q)
+				}
+			}
+			if someQ != nil {
+				break
+			}
 		}
 		for _, tr := range tb.Text {
 			if tr.W == "" {
@@ -765,7 +770,10 @@ func contentsMismatch(w *world, live map[string][]int) string {
 			out = append(out, fmt.Sprintf("%s: not live in the specification, VGet = %v", id, stored.Vector))
 		}
 	}
-	return strings.Join(out, "; ")
+	if len(out) == 0 {
+		return ""
+	}
+	return "index_prec=" + w.prec + "; " + strings.Join(out, "; ")
 }
 
 func linked(n *hnsw.Node, to uint32) bool {
